@@ -717,6 +717,36 @@ def _judge(case, ms, ms_pre, drv, tags):
                         boundary = True
                     else:
                         agree = False
+    # ---------------- (C') the text itself: the model's `renderWritten` with Python's number rendering supplied as a
+    # table (value -> repr(float(value))) must be the implementation's text, character for character
+    if agree and not boundary and "ok" in model:
+        w = model["ok"]
+        # value -> text.  The three second-valued header fields are rendered from the double the writer computes
+        # (`x * (1.0 / 1000.0)`, not the correctly rounded x/1000 of the exact model value); everything else is the
+        # repr of the double nearest to the model's value (bpm, groove: the stored double; #BPMS beats: round(…, 6))
+        h = content["hdr"]
+        table = {}
+        clash = False
+
+        def put(q, txt):
+            nonlocal clash
+            if table.setdefault(q, txt) != txt:
+                clash = True
+        for key, src, sign in (("offset_sec", "offset", -1), ("sample_start_sec", "sample_start", 1), ("sample_length_sec", "sample_length", 1)):
+            x = sign * (float(F(h[src])) * (1.0 / 1000.0))
+            put(F(w[key]), repr(x) if x != 0 else "0.0")
+        for v in [x for p in w["bpms"] for x in p] + [g for c in w["charts"] for g in c["groove"]]:
+            put(F(v), repr(float(F(v))))
+        nums = [[R(q), t] for q, t in table.items()]
+        m2 = drv.call("c03.write", hdr=content["hdr"], charts=content["charts"], nums=nums)
+        mtext = (m2.get("ok") or {}).get("text")
+        # (the sign of a zero offset - "#OFFSET:-0.0;" - is outside the rational model)
+        if clash:
+            tags.append("text-not-compared")
+        elif mtext is None or mtext != text.replace("#OFFSET:-0.0;", "#OFFSET:0.0;"):
+            agree = False
+            detail["model_text"] = (mtext or "")[:3000]
+            tags.append("text-differs")
     if not agree:
         detail["model"] = model
         detail["text"] = text[:3000]
